@@ -275,7 +275,17 @@ fn fetch(c: &Case) -> Result<attohttpc::Response, attohttpc::Error> {
     if matches!(c.defaults, Defaults::Session | Defaults::Both | Defaults::SessionThenRequestNone) {
         sess.default_charset(c.session_default);
     }
-    let mut rb = sess.get("http://origin.test/c18");
+    // (the session's settings reach a request whichever of the per-method constructors made it)
+    let url = "http://origin.test/c18";
+    let mut rb = match c.body.len() % 7 {
+        0 => sess.get(url),
+        1 => sess.post(url),
+        2 => sess.put(url),
+        3 => sess.patch(url),
+        4 => sess.delete(url),
+        5 => sess.options(url),
+        _ => sess.trace(url),
+    };
     if matches!(c.defaults, Defaults::Request | Defaults::Both) {
         rb = rb.default_charset(c.request_default);
     }
